@@ -86,9 +86,16 @@ def observe_state(mage, d, spec):
     return o
 
 
-def rewrite(d, files):
+def rewrite(d, files, keep_file_times=False):
     """edit the sources of a project directory IN PLACE (go.mod and the probe package stay): a file that is kept is
-    overwritten, not re-created, so its directory entry (and the directory's mtime) does not change"""
+    overwritten, not re-created (same-length //go:build spellings keep its size), and the mtime of every directory
+    whose entries did not change is put back.  The mtime of a REWRITTEN file is never put back: with equal size
+    and mtime the go command's own package index (modindex, keyed by name/size/mtime) answers from before the edit -
+    observed: `go list` keeps reporting the old GoFiles - which is outside mage"""
+    dirs_before = {}
+    for root, dirs, fs in os.walk(d):
+        st = os.stat(root)
+        dirs_before[root] = (sorted(dirs + fs), st.st_atime_ns, st.st_mtime_ns)
     for root, dirs, fs in os.walk(d):
         if os.path.relpath(root, d).split(os.sep)[0] == "probe":
             continue
@@ -99,11 +106,24 @@ def rewrite(d, files):
     for rel, text in files.items():
         p = os.path.join(d, rel)
         os.makedirs(os.path.dirname(p), exist_ok=True)
-        if os.path.exists(p) and open(p).read() == text:
+        if not os.path.exists(p):
+            with open(p, "w") as f:
+                f.write(text)
             continue
-        with open(p, "r+" if os.path.exists(p) else "w") as f:
+        if open(p).read() == text:
+            continue
+        with open(p, "r+") as f:
             f.write(text)
             f.truncate()
+    for root, (entries, at, mt) in dirs_before.items():
+        if os.path.isdir(root):
+            now = sorted(os.listdir(root))
+            if now == entries:
+                os.utime(root, ns=(at, mt))
+
+
+def _keep_times(spec):
+    return any(g.get("keep_times") for h in [spec] + spec["imports"] for g in h.get("files", {}).values())
 
 
 def observe_history(mage, states):
@@ -114,7 +134,7 @@ def observe_history(mage, states):
         if d is None:
             d = mage.project(files, name=spec["name"])
         else:
-            rewrite(d, files)
+            rewrite(d, files, keep_file_times=_keep_times(spec))
         out.append(observe_state(mage, d, spec))
     return out
 
